@@ -40,6 +40,14 @@ P = {
             "For every backend, entry point, config, capacity, buffer. The UTF-8 exception is stated on the bytes received so far (a target that "
             "ends inside a multi-byte sequence counts as deferred).",
             "Coq proof (constructive completion per grammar stage + stability under append + refinement), + finite-completion-set runs on the implementation"),
+    "C19": ("proof",
+            "Theorems crate_names_closed, every_file_closed, std_only_in_runtime, no_allocating_name_anywhere, std_gated_items_are_the_error_impl "
+            "(Thm/C19.v, over Generated/Names.v regenerated from /repo each run): #![no_std] without feature std, no extern crate, every path / "
+            "import / macro / method resolves into core or the crate, std:: only in simd/runtime.rs as std::sync::atomic + is_x86_feature_detected!, "
+            "the only std-gated item is impl std::error::Error, no allocating std-prelude name anywhere. PARTIAL: the step from this name closure "
+            "to 'no heap allocation for any input' trusts rustc's name resolution and that core has no allocator; that step is exercised, not "
+            "proved, by the counting allocator around every call (both feature sets) and by the 16 no_std switch-combination builds.",
+            "Coq proof (vm_compute over the translated name table) + counting-allocator differential runs + no_std builds"),
     "C06": ("proof",
             "Theorem request_ref_eq / request_entries_ref_eq (Thm/C06.v): the model of all four request entry points equals the span-level "
             "reference grammar ref_request for every backend satisfying EnvOk, config, capacity and buffer (unbounded). Tie: model vs crate "
